@@ -37,6 +37,7 @@ REWRITES = {
     'R21': 'closure whose only parameter is the wildcard `|_|` gets a named, unused parameter `|_vx_w|` (Verus accepts only variables as closure parameters)',
     'R2c': 'format! whose template has only `{}` / `{ident}` placeholders becomes the concatenation of its literal pieces and of the Display strings of its arguments (str, String, Cow<str>): vx_cat(vx_lit(..), VxS::vx_s(&arg)) -- used where the formatted string is a key the property depends on',
     'R1b': '`unreachable!(\"..\", args)` / `panic!(\"..\", args)` lose their message and become `unreachable!()` (the arm stays an obligation: it must be proved unreachable)',
+    'R23': 'a field of type RwLock<T> is given the type T and `self.F.write().unwrap()` / `self.F.read().unwrap()` become `&mut self.F` / `&self.F` (receiver &self -> &mut self, R7): the lock guard held to the end of the block is the exclusive / shared borrow of the protected value; single-task semantics only, no claim about interleavings or lock poisoning',
     'R22': 'by-value receiver `mut self` becomes `self` with `let mut vx_self = self;` first in the body and every `self` of the body renamed (Verus does not support `mut self`; the binding mode of a by-value parameter is not part of the interface)',
     'R12': 'derive(Default) expanded to the field-wise impl the derive generates (inside verus!, verified, not assumed)',
 }
@@ -336,10 +337,21 @@ pub assume_specification [<{q} as PartialEq>::eq] (a: &{q}, b: &{q}) -> (r: bool
                 self._rw('R4')
         return kept
 
-    def struct(self, path, name, derive=None, clone='auto', pub_fields=True, structural='auto', default_ensures=None):
+    def struct(self, path, name, derive=None, clone='auto', pub_fields=True, structural='auto', default_ensures=None, unlock=()):
         src, e = find(path, 'struct', struct=name)
         a, b = e['item']
         edits = []
+        # R23: a field `RwLock<T>` listed in `unlock` is given the type `T` (see fn(unlock=..))
+        for fname in unlock:
+            ff = [f for f in e['fields'] if f['name'] == fname]
+            if not ff:
+                raise LostAnchor(f'{path}: struct {name} has no field {fname}')
+            t0, t1 = ff[0]['ty']
+            m23 = re.fullmatch(r'(?:std::sync::)?RwLock\s*<(.*)>', src[t0:t1].decode().strip(), re.S)
+            if not m23:
+                raise ToolLimit(f'{name}.{fname}: R23 wants an RwLock<T> field')
+            edits.append((t0, t1, [Seg(m23.group(1))]))
+            self._rw('R23')
         kept = self._strip_attrs(src, e, KEEP_DERIVES, edits)
         if derive is not None:
             kept = [d for d in kept if d in derive]
@@ -495,7 +507,7 @@ pub assume_specification [<{q} as PartialEq>::eq] (a: &{q}, b: &{q}) -> (r: bool
     # ---------- functions ----------
     def fn(self, path, impl, fn, requires=(), ensures=(), loops=None, ghost=(), subst=(), trait=None,
            erase_async=False, mut_self=False, ret_name='r', decreases=None, keep_macros=(), external_body=False,
-           let_chains=True, fmt=True, hash_loops=(), vis='pub', recommends=(), trait_full=None, keep_arms=None, as_inherent=False, copied_loops=(), eta=(), closures=None, continue_guards=(), deref_loops=(), attrs=(), clone_loops=(), into_values_loops=()):
+           let_chains=True, fmt=True, hash_loops=(), vis='pub', recommends=(), trait_full=None, keep_arms=None, as_inherent=False, copied_loops=(), eta=(), closures=None, continue_guards=(), deref_loops=(), attrs=(), clone_loops=(), into_values_loops=(), unlock=()):
         """Extract one fn verbatim and splice its contract.  Returns a list of Seg (to be put in an impl block).
         requires/ensures: list of (name, text).  loops: {ordinal: dict(invariant=[(name,text)], decreases=text, iter='vx_it')}
         ghost: list of (anchor, text) with anchor in ('body_start',), ('body_end',), ('loop_start',k), ('loop_end',k),
@@ -615,6 +627,16 @@ pub assume_specification [<{q} as PartialEq>::eq] (a: &{q}, b: &{q}) -> (r: bool
                 raise ToolLimit(f'{fn}: R7 wants &self receiver')
             edits.append((inp[0], inp[1], [Seg('&mut self')]))
             self._rw('R7')
+        # R23: `self.F.write().unwrap()` / `self.F.read().unwrap()` on an RwLock field listed in `unlock` becomes the exclusive /
+        # shared borrow of the protected value (single-task semantics of a lock held to the end of the enclosing block)
+        if unlock and not external_body:
+            btxt23 = src[bs:be].decode()
+            for fld in unlock:
+                for m23 in re.finditer(r'self\s*\.\s*' + re.escape(fld) + r'\s*\.\s*(write|read)\s*\(\s*\)\s*\.\s*unwrap\s*\(\s*\)', btxt23):
+                    s23 = bs + len(btxt23[:m23.start()].encode())
+                    t23 = bs + len(btxt23[:m23.end()].encode())
+                    edits.append((s23, t23, [Seg(f'(&mut self.{fld})' if m23.group(1) == 'write' else f'(&self.{fld})')]))
+                    self._rw('R23')
         # R9
         if e['ret'] is not None and ret_name and (ensures or external_body):
             s, t = e['ret']
@@ -911,25 +933,36 @@ pub assume_specification [<{q} as PartialEq>::eq] (a: &{q}, b: &{q}) -> (r: bool
         # closure contracts: the k-th closure gets typed parameters, a named result and an ensures clause (annotation only;
         # the closure body is untouched)
         for k, spec in (closures or {}).items():
+            every = isinstance(k, str) and k.endswith('*')
+            if every:
+                k = k[:-1]
             kid = k if not isinstance(k, str) else '_' + re.sub(r'\W+', '_', k).strip('_')
             if isinstance(k, str):
-                # a closure named by its parameter list as written (`|m|`): robust against closures added before it
+                # a closure named by its parameter list as written (`|m|`): robust against closures added before it;
+                # `|m|*`: every closure with that parameter list gets the contract (one obligation id for all of them)
                 hits = [i for i, C0 in enumerate(e['closures']) if ''.join(src[C0['span'][0]:C0['body'][0]].decode().split()) == ''.join(k.split())]
-                if len(hits) != 1:
-                    raise LostAnchor(f'{fn}: closure {k} matches {len(hits)} closures')
-                k = hits[0]
-            if k >= len(e['closures']):
-                raise LostAnchor(f'{fn}: closure #{k} not found')
-            C = e['closures'][k]
-            cs, ct = C['span']
-            cbs, cbt = C['body']
+                if every:
+                    ks = hits
+                else:
+                    if len(hits) != 1:
+                        raise LostAnchor(f'{fn}: closure {k} matches {len(hits)} closures')
+                    ks = [hits[0]]
+            else:
+                ks = [k]
             cid = f'{fid}.closure{kid}.ensures'
-            self.clauses[cid] = {'kind': 'ensures', 'fn': fid, 'text': ' '.join(spec['ensures'].split())}
-            clause_list.append(cid)
-            is_block = src[cbs:cbs + 1] == b'{'
-            edits.append((cs, cbs, [Seg(spec['header'] + ' ensures '), Seg(spec['ensures'], clause=cid, fn=fid), Seg(' ' if is_block else ' { ')]))
-            if not is_block:
-                edits.append((cbt, cbt, [Seg(' }')]))
+            if ks:
+                self.clauses[cid] = {'kind': 'ensures', 'fn': fid, 'text': ' '.join(spec['ensures'].split())}
+                clause_list.append(cid)
+            for k in ks:
+                if k >= len(e['closures']):
+                    raise LostAnchor(f'{fn}: closure #{k} not found')
+                C = e['closures'][k]
+                cs, ct = C['span']
+                cbs, cbt = C['body']
+                is_block = src[cbs:cbs + 1] == b'{'
+                edits.append((cs, cbs, [Seg(spec['header'] + ' ensures '), Seg(spec['ensures'], clause=cid, fn=fid), Seg(' ' if is_block else ' { ')]))
+                if not is_block:
+                    edits.append((cbt, cbt, [Seg(' }')]))
         # R13: constructor used as a function value -> eta-expanded closure (every occurrence)
         if eta:
             whole0 = src[a:b].decode()
@@ -1288,6 +1321,14 @@ pub assume_specification [<{q} as PartialEq>::eq] (a: &{q}, b: &{q}) -> (r: bool
         if trait is not None:
             kw['trait'] = trait
         src, e = find(path, 'fn', **kw)
+        if isinstance(k, str):
+            # a statement named by the text it starts with (robust against statements added before it)
+            def _sp(st0):
+                return (st0[0], st0[1]) if isinstance(st0, (list, tuple)) else (st0['span'][0], st0['span'][1])
+            hits = [i for i, st0 in enumerate(e['stmts']) if ' '.join(src[_sp(st0)[0]:_sp(st0)[1]].decode().split()).startswith(' '.join(k.split()))]
+            if len(hits) != 1:
+                raise LostAnchor(f'{fn}: statement starting with {k!r} matches {len(hits)} statements')
+            k = hits[0]
         if k >= len(e['stmts']):
             raise LostAnchor(f'{fn}: statement #{k} not found ({len(e["stmts"])} statements)')
         st = e['stmts'][k]
@@ -1490,7 +1531,7 @@ def classify(msg):
     for x in ('postcondition not satisfied', 'precondition not satisfied', 'invariant not satisfied',
               'assertion failed', 'possible arithmetic underflow/overflow', 'possible division by zero',
               'possible bit shift', 'decreases not satisfied', 'could not prove termination',
-              'cannot prove', 'unreachable', 'out of bounds', 'bounds check', 'assertion failure'):
+              'cannot prove', 'unable to prove post-condition', 'unreachable', 'out of bounds', 'bounds check', 'assertion failure'):
         if x in m:
             return 'violation'
     return 'tool'
